@@ -1007,7 +1007,8 @@ def gen_index(ctx, tasks):
         calls = []
         for before, cur, layout in calls_spec:
             text, after, col = render_call(d['call'], before, cur, layout, rng)
-            calls.append(dict(text=text, after=after, before=before, cur=cur, line=base_lines + 1, col=col))
+            calls.append(dict(text=text, after=after, before=before, cur=cur, line=base_lines + 1, col=col,
+                              grid=(rng is None)))
         for i in range(0, len(calls), 120):
             tasks.append(dict(kind='sig', stream='index', meta=(form, d, ps), src=d['src'], obj=d['obj'], raw=d['raw'],
                               fname=d['fname'], defname=d['defname'], kw_wrapper=(form == 'wrapper'), calls=calls[i:i + 120]))
@@ -1072,6 +1073,11 @@ def gen_index(ctx, tasks):
         add_def(form, ps, spec, rng=ctx.rng, ret=ctx.rng.choice([None, None, 'int']) if form != 'init' else None)
 
 
+def hash_of(*parts):
+    import zlib
+    return zlib.crc32('\x00'.join(parts).encode('utf8'))
+
+
 def check_index_case(ctx, coq, form, d, ps, call, out, view, orc_params, stats, scan_diff):
     where = dict(form=form, source=d['src'], call=call['text'], after=call['after'])
     before, cur = call['before'], call['cur']
@@ -1097,6 +1103,10 @@ def check_index_case(ctx, coq, form, d, ps, call, out, view, orc_params, stats, 
         exp = [(p[0], p[1]) for p in orc_params]
         if rep != exp:
             given = {b[1] for b in before if b[0] == 'K'} | ({cur[1]} if cur[0] in ('K', 'KV') else set())
+            if cur[0] == 'E' and call['after'].startswith('='):
+                given.add(cur[1])           # the complete call reads `name=1`
+            elif cur[0] == 'E' and call['after'].startswith('q='):
+                given.add(cur[1] + 'q')
             cls = 'signature-mismatch'
             if rep == [p for p in exp if p[0] not in given] and call['after']:
                 cls = 'wrapper-consumes-given-keywords'
@@ -1108,7 +1118,9 @@ def check_index_case(ctx, coq, form, d, ps, call, out, view, orc_params, stats, 
               nontrivial=len(ps) > 0 and (len(before) > 0 or cur != ('E', '')))
     v = out.get('view') or view
     # (a) correspondence: calc_index on the captured triples and the parameters calculate_index saw
-    coq.add('TI', ([tuple(x) for x in v['int']], trip, idx), dict(where=where, params=v['int'], triples=trip, index=idx))
+    # (quick tier: every second case of the plain-function grid; the same grid is covered by the direct calc stream)
+    if not (ctx.quick and form == 'function' and call.get('grid') and (hash_of(d['src'], call['text']) & 1)):
+        coq.add('TI', ([tuple(x) for x in v['int']], trip, idx), dict(where=where, params=v['int'], triples=trip, index=idx))
     # (b) scanner output vs generator intent
     # (the text kept for a starred argument in front of the cursor is never read by calculate_index)
     norm = lambda tr: [((a, None, c) if a and i + 1 < len(tr) else (a, b, c)) for i, (a, b, c) in enumerate(tr)]
